@@ -970,6 +970,8 @@ func (s *server) MutateRows(req *btpb.MutateRowsRequest, stream btpb.Bigtable_Mu
 		if err := applyMutations(tbl, r, entry.Mutations, now); err != nil {
 			code = int32(codes.Internal)
 			msg = err.Error()
+			// Discard the mutations of this entry that were already applied to r.
+			r = tbl.getOrCreateRow(entry.RowKey)
 		}
 		tbl.updateRow(r)
 		res.Entries[i] = &btpb.MutateRowsResponse_Entry{
